@@ -145,6 +145,12 @@ def instance_of(state):
             "byKey": [sorted(int(h) for h in state["byKey"][k]) for k in range(len(state["byKey"]))]}
     if "hist" in state and len(state["hist"]) > 1:
         inst["hist"] = [strat_of(h) for h in state["hist"]]
+    if "log" in state and any(str(e["op"]) == "move" for e in state["log"]):
+        inst["hist"] = [strat_of(h) for h in state["hist"]]
+        inst["dc0"] = [int(x) for x in state["dc0"]]
+        inst["rack0"] = [int(x) for x in state["rack0"]]
+        inst["log"] = [{"op": "alter", "s": strat_of(e["s"])} if str(e["op"]) == "alter" else
+                       {"op": "move", "h": int(e["h"]), "d": int(e["d"]), "r": int(e["r"])} for e in state["log"]]
     return inst
 
 
@@ -169,6 +175,83 @@ def evaluate(inst, shuffle_rng=None):
         if len(code) != len(set(code)):
             bad.append({"key": k, "spec": exp, "code": code, "why": "repeat",
                         "set_differs": sorted(set(code), key=repr) != sorted(exp, key=repr)})
+        elif sorted(code, key=repr) != sorted(exp, key=repr):
+            bad.append({"key": k, "spec": exp, "code": code, "why": "set"})
+    return bad
+
+
+# ------------------------------------------------------------------------------------------- histories with host moves
+# Bound on a real Cluster over the simulated nodes (harness/sim): the node list and the token map come from the real
+# ControlConnection._refresh_node_list_and_token_map reading system.local / system.peers of FakeNodes.
+
+class ClusterRing(object):
+    """Real Cluster + ControlConnection + Metadata over FakeNodes laid out as (ring, dc, rack); host 1 is the contact
+    point (and control host).  Nothing is checked here."""
+
+    def __init__(self, ring, dc, rack, lbp=None):
+        repo_import("cassandra.cluster")
+        from harness.sim.simcluster import SimWorld, FakeNode, make_cluster
+        self.world = SimWorld()
+        self.nodes = {}
+        tokens = {}
+        for i, o in enumerate(ring, 1):
+            tokens.setdefault(o, []).append(token_hex(i))
+        for h in range(1, len(dc) + 1):
+            self.nodes[h] = self.world.add_node(FakeNode(host_addr(h), dc=dc_name(dc[h - 1]), rack=rack_name(rack[h - 1]),
+                                                         tokens=tokens.get(h, ["f%d" % h])))
+        self.cluster = make_cluster(self.world, [host_addr(1)], lbp=lbp)
+        self.session = self.cluster.connect()
+        self.md = self.cluster.metadata
+        self.L = len(ring)
+
+    def install(self, name, strat, via="update"):
+        install_keyspace(self.md, name, strat, via)
+
+    def move(self, h, d, r):
+        """The node is reported in another datacenter/rack from now on; the driver learns it from a node-list refresh."""
+        self.nodes[h].dc, self.nodes[h].rack = dc_name(d), rack_name(r)
+        return self.cluster.control_connection.refresh_node_list_and_token_map()
+
+    def replicas(self, name):
+        out = {}
+        for k in range(1, 2 * self.L + 2):
+            reps = self.md.get_replicas(name, key_bytes(k))
+            out[k] = [int(r.address.rsplit(".", 1)[1]) if r.address.startswith("10.0.0.") else repr(r) for r in reps]
+        return out
+
+    def close(self):
+        try:
+            self.cluster.shutdown()
+        except Exception:
+            pass
+
+
+def evaluate_history(inst):
+    """An instance with "log" (alterations and host moves after the ring was built) on a real Cluster.
+    Replicas of every key are looked up before every step (so that they are cached); the answers after the last
+    step are compared with inst["byKey"].  Returns mismatches like evaluate()."""
+    cr = None
+    try:
+        cr = ClusterRing(inst["ring"], inst["dc0"], inst["rack0"])
+        cr.install(KS, inst["hist"][0])
+        for n, e in enumerate(inst["log"]):
+            cr.replicas(KS)
+            if e["op"] == "alter":
+                cr.install(KS, e["s"], via="rebuild_all" if n % 2 else "update")
+            else:
+                cr.move(e["h"], e["d"], e["r"])
+        got = cr.replicas(KS)
+    except Exception as ex:
+        return [{"key": 0, "spec": None, "code": "%s: %s" % (type(ex).__name__, ex), "why": "exception"}]
+    finally:
+        if cr is not None:
+            cr.close()
+    bad = []
+    for k in range(1, 2 * len(inst["ring"]) + 2):
+        exp = sorted(inst["byKey"][k - 1])
+        code = got[k]
+        if len(code) != len(set(code)):
+            bad.append({"key": k, "spec": exp, "code": code, "why": "repeat"})
         elif sorted(code, key=repr) != sorted(exp, key=repr):
             bad.append({"key": k, "spec": exp, "code": code, "why": "set"})
     return bad
